@@ -18,6 +18,7 @@ import Jamm.Gen.Params
 import Jamm.Gen.Steps
 import Jamm.Proofs.CommitCompose
 import Jamm.Proofs.ImplCheckLemmas
+import Jamm.Proofs.TreeDBLemmas
 set_option linter.unusedSectionVars false
 
 namespace Jamm.Props.C16
@@ -80,5 +81,44 @@ commit into an error -/
 theorem strict_mode_never_rejects_a_checked_file (mt : MetaRec) (pg : PageStore) (fileSize pagesize : Nat)
     (sum : FileSummary) (h : checkFile mt pg fileSize pagesize = .ok sum) : implCheck mt pg = .ok () :=
   implCheck_of_checkFile mt pg fileSize pagesize sum h
+
+/-! ### behaviour is a function of the history, not of the trees.  Two databases that hold the same logical
+contents in differently shaped trees (the same history committed under two page sizes, initial page counts,
+…) answer every call alike and still hold the same contents afterwards. -/
+section
+variable {K V : Type} [Ord K] [Std.TransOrd K] [Std.LawfulEqOrd K] [DecidableEq K]
+
+theorem same_contents_same_answers (db1 db2 : TDB.DB K V) (h1 : TDB.AllWF db1) (h2 : TDB.AllWF db2)
+    (hab : TDB.abs db1 = TDB.abs db2) (p : Spec.Path K) (k : K) (v : V) (s m : Bool) :
+    (TDB.put db1 p k v).1 = (TDB.put db2 p k v).1 ∧
+    (TDB.delete db1 p k).1 = (TDB.delete db2 p k).1 ∧
+    (TDB.bucketGetter db1 p k s m).1 = (TDB.bucketGetter db2 p k s m).1 ∧
+    (TDB.deleteBucket db1 p k).1 = (TDB.deleteBucket db2 p k).1 ∧
+    TDB.get db1 p k = TDB.get db2 p k ∧ TDB.scan db1 p = TDB.scan db2 p ∧ TDB.nextInt db1 p = TDB.nextInt db2 p := by
+  refine ⟨?_, ?_, ?_, ?_, ?_, ?_, ?_⟩
+  · rw [(TDB.put_refines db1 h1 p k v).1, (TDB.put_refines db2 h2 p k v).1, hab]
+  · rw [(TDB.delete_refines db1 h1 p k).1, (TDB.delete_refines db2 h2 p k).1, hab]
+  · rw [(TDB.bucketGetter_refines db1 h1 p k s m).1, (TDB.bucketGetter_refines db2 h2 p k s m).1, hab]
+  · rw [(TDB.deleteBucket_refines db1 h1 p k).1, (TDB.deleteBucket_refines db2 h2 p k).1, hab]
+  · rw [TDB.get_refines db1 h1 p k, TDB.get_refines db2 h2 p k, hab]
+  · rw [TDB.scan_refines db1 p, TDB.scan_refines db2 p, hab]
+  · rw [TDB.nextInt_refines db1 p, TDB.nextInt_refines db2 p, hab]
+
+/-- … and after any further sequence of write operations they still hold the same contents -/
+theorem same_contents_preserved (db1 db2 : TDB.DB K V) (h1 : TDB.AllWF db1) (h2 : TDB.AllWF db2)
+    (hab : TDB.abs db1 = TDB.abs db2) (ops : List (TDB.Op K V)) :
+    TDB.abs (ops.foldl TDB.applyOp db1) = TDB.abs (ops.foldl TDB.applyOp db2) := by
+  rw [(TDB.applyOps_refine db1 h1 ops).1, (TDB.applyOps_refine db2 h2 ops).1, hab]
+
+/-- … and after commits that rewrite the trees in whatever configuration-dependent way, as long as each keeps
+its bucket's contents (`commit_contents_independent_of_pagesize` says so of the commit model) -/
+theorem same_contents_after_commits (f1 f2 : Spec.Path K → Tree K (Spec.Item V) → Tree K (Spec.Item V))
+    (db1 db2 : TDB.DB K V) (hab : TDB.abs db1 = TDB.abs db2)
+    (hf1 : ∀ e ∈ db1, (f1 e.1 e.2.tree).flatten = e.2.tree.flatten)
+    (hf2 : ∀ e ∈ db2, (f2 e.1 e.2.tree).flatten = e.2.tree.flatten) :
+    TDB.abs (TDB.commitWith f1 db1) = TDB.abs (TDB.commitWith f2 db2) := by
+  rw [TDB.commitWith_refines f1 db1 hf1, TDB.commitWith_refines f2 db2 hf2, hab]
+
+end
 
 end Jamm.Props.C16
